@@ -206,3 +206,53 @@ Proof. exact (Resolve.TotalProofs.total_example Gen.GenResolve.gen_rflags). Qed.
 Print Assumptions C07_resolver_total.
 Print Assumptions C07_order_total.
 Print Assumptions C07_resolver_total_witness.
+
+(* ---- the type checker (model: coq/Types/Tc.v; proofs: coq/Types/NoPanic.v) ------------------------------------ *)
+From Sylt Require Types.TyGraph Types.Tc Types.NoPanic.
+
+(* C07_checker_no_panic.  `input_ok r` (computable, Types/NoPanic.v) is what name resolution guarantees of its
+   output: every variable id the checker indexes `self.variables` with (reads, definitions, parameters, case bindings,
+   type names in annotations and instantiations, `self`, the start variable) is an index of the variable table; an
+   index expression is an integer literal; there is no BinOp::Nop and no `if` without branches; the outer statements
+   are blob / enum / definition / external-definition declarations.  Then no Panic site of the model is reachable, for
+   any fuel: not `self.variables[..]` / `self.types[..]` out of bounds (the latter by the invariant that every type id
+   stored in the graph is the id of a node: NoPanic.closed / dense, kept by every operation), not the `unreachable!()`s,
+   not `branches.last().unwrap()`, not the field lookup of a blob instantiation (its keys are the keys the map was
+   built from).  The type checker answers Ok, Err (the type carries a first error: never an empty list), or runs out
+   of the fuel it was given.  The tie of C02-C05 / C08 evaluates input_ok on every input the real resolver produced
+   (a false value is reported as a disagreement). *)
+Theorem C07_checker_no_panic : forall fuel r,
+  Sylt.Types.NoPanic.input_ok r = true -> forall p, Sylt.Types.Tc.typecheck fuel r <> Sylt.Types.TyGraph.Panic p.
+Proof. exact Sylt.Types.NoPanic.typecheck_no_panic. Qed.
+
+Theorem C07_checker_answers : forall fuel r,
+  Sylt.Types.NoPanic.input_ok r = true ->
+  Sylt.Types.Tc.typecheck fuel r = Sylt.Types.TyGraph.Ok tt
+  \/ (exists e more, Sylt.Types.Tc.typecheck fuel r = Sylt.Types.TyGraph.Err e more)
+  \/ Sylt.Types.Tc.typecheck fuel r = Sylt.Types.TyGraph.OutOfFuel.
+Proof.
+  intros fuel r H. pose proof (Sylt.Types.NoPanic.typecheck_no_panic fuel r H) as N.
+  destruct (Sylt.Types.Tc.typecheck fuel r) as [[]| e more | p |]; [auto|right; left; eauto|exfalso; exact (N p eq_refl)|auto].
+Qed.
+
+(* non-vacuity: `start :: fn do x end` where x has an id outside the variable table does not satisfy input_ok, and on it
+   the model does reach a Panic site; the same program with the id inside the table satisfies it *)
+Definition c07_sp : Syntax.Resolved.span := Syntax.Resolved.mkSpan 0%N 1%N 1%N 1%N 2%N.
+Definition c07_prog (x : N) : Syntax.Resolved.resolved :=
+  Syntax.Resolved.mkResolved
+    [Syntax.Resolved.mkVar 0%N "start" c07_sp true Syntax.Resolved.Const; Syntax.Resolved.mkVar 1%N "x" c07_sp true Syntax.Resolved.Const]
+    [Syntax.Resolved.SDefinition "x" 1%N Syntax.Resolved.Const (Syntax.Resolved.TImplied c07_sp) (Syntax.Resolved.EInt (BinNums.Zpos BinNums.xH) c07_sp) c07_sp;
+     Syntax.Resolved.SDefinition "start" 0%N Syntax.Resolved.Const (Syntax.Resolved.TImplied c07_sp)
+       (Syntax.Resolved.EFunction "lambda" [] (Syntax.Resolved.TResolved Syntax.Resolved.BVoid c07_sp)
+          [Syntax.Resolved.SStatementExpression (Syntax.Resolved.ERead x c07_sp) c07_sp] false c07_sp) c07_sp].
+
+Example C07_checker_no_panic_witness :
+  Sylt.Types.NoPanic.input_ok (c07_prog 1%N) = true
+  /\ Sylt.Types.Tc.typecheck 40%nat (c07_prog 1%N) = Sylt.Types.TyGraph.Ok tt
+  /\ Sylt.Types.NoPanic.input_ok (c07_prog 7%N) = false
+  /\ Sylt.Types.Tc.typecheck 40%nat (c07_prog 7%N) = Sylt.Types.TyGraph.Panic Sylt.Types.TyGraph.PVarIndex.
+Proof. vm_compute. auto. Qed.
+
+Print Assumptions C07_checker_no_panic.
+Print Assumptions C07_checker_answers.
+Print Assumptions C07_checker_no_panic_witness.
